@@ -58,6 +58,16 @@ func verifC01_Host() {
 	}
 }
 
+var vMethodNames = []string{"GET", "HEAD", "POST", "PUT", "DELETE"}
+
+func vMethod(label string) string {
+	k := verifChoose(label, len(vMethodNames)+1)
+	if k == len(vMethodNames) {
+		return verifString(label+".token", 2)
+	}
+	return vMethodNames[k]
+}
+
 func vIn(s string, list []string) bool {
 	for _, x := range list {
 		if x == s {
@@ -152,5 +162,26 @@ func verifC01_Entry() {
 	} else if wantPath {
 		mp.rewrite(req)
 		verifAssert(req.Path() == path, "no-rewrite-target-leaves-path")
+	}
+}
+
+// verifC01_Method: the method condition with real method names: an entry admits exactly the
+// methods it lists (no list = every method); HEAD is not GET, names are case-sensitive tokens.
+func verifC01_Method() {
+	p := &Path{Backend: "b", Path: "/x"}
+	nm := verifChoose("entry.methods", 4)
+	for i := 0; i < nm; i++ {
+		p.Methods = append(p.Methods, vMethod("entry.method"))
+	}
+	mp := newMuxPath(nil, p)
+	method := vMethod("req.method")
+	req := &httpprot.Request{Request: &http.Request{Method: method, URL: &url.URL{Path: "/x"}, Header: http.Header{}}}
+	want := len(p.Methods) == 0 || vIn(method, p.Methods)
+	verifAssert(mp.matchMethod(req) == want, "method-match")
+	if want && nm > 0 {
+		verifCover("listed-method")
+	}
+	if !want {
+		verifCover("method-not-listed")
 	}
 }
